@@ -121,4 +121,51 @@ example : offsetToPosition "a\né😀b".toList 7 = (1, 2) := by decide
 example : positionToOffset "a\né😀b".toList (1, 2) = some 8 := by decide
 example : spanToRange "ab".toList 5 1 = { start := (0, 2), stop := (0, 2) } := by decide
 
+/-! ### Injectivity, position → offset stays inside the document, degenerate spans -/
+
+/-- Two different character boundaries never share a position (offset → position is injective on boundaries). -/
+theorem boundary_injective (pre mid post : List Char)
+    (h : offsetToPosition (pre ++ mid ++ post) (utf8Len pre) = offsetToPosition (pre ++ mid ++ post) (utf8Len (pre ++ mid))) :
+    mid = [] := by
+  by_cases hm : mid = []
+  · exact hm
+  · exact absurd h (Position.ne_of_lt (strict_mono pre mid post hm))
+
+theorem p2oGo_bound (cs : List Char) (i line col off : Nat) (pos : Position) (o : Nat)
+    (hoff : off ≤ i) (h : p2oGo cs i line col off pos = some o) : o ≤ i + utf8Len cs := by
+  induction cs generalizing i line col off with
+  | nil =>
+    simp only [p2oGo] at h
+    split at h
+    · injection h with h; simp [utf8Len]; omega
+    · cases h
+  | cons c cs ih =>
+    simp only [p2oGo] at h
+    simp only [utf8Len]
+    split at h
+    · injection h with h; omega
+    · split at h
+      · split at h
+        · injection h with h; omega
+        · have := ih _ _ _ _ (Nat.le_refl _) h; omega
+      · have := ih _ _ _ _ (Nat.le_refl _) h; omega
+
+/-- position → offset never leaves the document: for **every** position (valid or not) and every document, an
+answer is a byte offset inside `0 ..= len`. -/
+theorem positionToOffset_in_doc (doc : List Char) (pos : Position) (o : Nat)
+    (h : positionToOffset doc pos = some o) : o ≤ utf8Len doc := by
+  have := p2oGo_bound doc 0 0 0 0 pos o (Nat.le_refl _) h
+  simpa using this
+
+/-- An empty or reversed span still yields the range of one character (or the end position): start and stop are
+positions of offsets `start` and `start + 1`. -/
+theorem degenerate_span_range (doc : List Char) (start stop : Nat) (h : stop ≤ start) :
+    spanToRange doc start stop = spanToRange doc start (start + 1) := by
+  unfold spanToRange
+  have : max stop (start + 1) = start + 1 := by omega
+  simp [this]
+
+example : positionToOffset "aé\nb".toList (1, 1) = some 5 ∧ positionToOffset "aé\nb".toList (0, 99) = some 3 := by decide
+
+
 end Incan.Pos
